@@ -676,3 +676,15 @@ package protocol
 //@   property C13
 //@ struct writers dataAckStruct.payloadLen = {Session.writeChunk, dataAckStruct.Unmarshal}
 //@   property C13 C01
+//@
+//@ // One segment is written to the TCP connection as a unit (C01): writeOneSegment takes the
+//@ // send lock, and the fragmenting writer it calls never releases or re-takes a lock between
+//@ // the pieces, so segments of sessions sharing the connection cannot interleave.
+//@ struct mustcall StreamUnderlay.writeOneSegment : sync.Mutex.Lock
+//@   property C01
+//@ struct nocall StreamUnderlay.writeWithPossibleFragment : sync.Mutex.Unlock
+//@   property C01
+//@ struct nocall StreamUnderlay.writeWithPossibleFragment : sync.Mutex.Lock
+//@   property C01
+//@ struct callers StreamUnderlay.writeWithPossibleFragment = {StreamUnderlay.writeOneSegment}
+//@   property C01
